@@ -8,6 +8,7 @@ import math
 
 import pysnark.runtime
 from pysnark.runtime import LinComb
+from pysnark.boolean import LinCombBool
 
 PRIME = pysnark.runtime.backend.get_modulus()
 
@@ -59,7 +60,7 @@ def rand_bits(count):
     return [random.randint(0, 1) for i in xrange(count)]
 
 def ggh_hash(bits):
-    if any(map(lambda x: isinstance(x, LinComb), bits)):
+    if any(map(lambda x: isinstance(x, LinComb) or isinstance(x, LinCombBool), bits)):
         return ggh_hash_nonplain(bits)
     else:
         return ggh_hash_plain(bits)
